@@ -129,6 +129,12 @@ func runC10One(sc *c10Scenario) ([]c10Obs, *Violation) {
 		return conn.WaitWritten(func(w string) bool { return strings.Count(w, "\r\n") >= n }, 5*time.Minute)
 	}
 	for k, l := range sc.Lines {
+		if k == sc.ToggleAt && l.GapMS > 0 {
+			// the idle period of the toggle shapes is counted from the last write, not from the last call
+			if !waitWire(total) {
+				return nil, violationf("C10", "queue did not drain before the idle period")
+			}
+		}
 		if l.GapMS > 0 {
 			time.Sleep(time.Duration(l.GapMS) * time.Millisecond)
 		}
